@@ -50,12 +50,15 @@ def run(idx, rep, tier):
             rep.decide(v, "loop-cap", "arnoldi_fact:loop", f"cond contains `{cert['expr']}`; {why}; counter starts at {start}", detail="" if v is not False else "off-by-one",
                        locs=[idx.loc(fact.module, l.call)])
     # ---- buffers: zeros, sized by the requested cap
+    # roles by position in init_arnoldi's returned state (slot 0 = basis Q, slot 1 = Hessenberg H), not by local name
     bufs = {}
+    irets = [r.value for r in df.returns(init.node) if isinstance(r.value, ast.Tuple) and len(r.value.elts) >= 2]
+    role_of = {e.id: role for r in irets[:1] for role, e in zip(("Q", "H"), r.elts[:2]) if isinstance(e, ast.Name)}
     for name, vals in df.assignments(init.node).items():
         for v, p, st in vals:
-            if isinstance(v, ast.Call) and df.is_xnp_call(v) in ("zeros", "empty", "ones", "zeros_like", "empty_like") and name in ("H", "Q"):
+            if isinstance(v, ast.Call) and df.is_xnp_call(v) in ("zeros", "empty", "ones", "zeros_like", "empty_like") and name in role_of:
                 shape = next((k.value for k in v.keywords if k.arg == "shape"), v.args[0] if v.args else None)
-                bufs[name] = (df.is_xnp_call(v), nospace(shape) if shape is not None else "", v)
+                bufs[role_of[name]] = (df.is_xnp_call(v), nospace(shape) if shape is not None else "", v)
     if set(bufs) != {"H", "Q"}:
         rep.undecided("buffers", "init_arnoldi", f"buffers found: {sorted(bufs)}")
     else:
@@ -75,7 +78,16 @@ def run(idx, rep, tier):
     if body is None:
         rep.missing_anchor("loop body of arnoldi_fact")
     else:
-        writes = [w for w in norm_written(body) if w[0].startswith("h_vec") and nospace(w[2].args[-1]).endswith("+1")]
+        # the Hessenberg buffer is slot 1 of the loop state; the column stored into it is the coefficient vector,
+        # whose entry at counter + 1 is the sub-diagonal
+        hname = None
+        for st in df.body_nodes(body.node):
+            if isinstance(st, ast.Assign) and isinstance(st.targets[0], ast.Tuple) and isinstance(st.value, ast.Name) and body.params and st.value.id == body.params[0] \
+                    and len(st.targets[0].elts) > 1 and isinstance(st.targets[0].elts[1], ast.Name):
+                hname = st.targets[0].elts[1].id
+        allw = norm_written(body)
+        cols = {nospace(w[2].args[1]) for w in allw if w[0] == hname and isinstance(w[2].args[1], ast.Name)}
+        writes = [w for w in allw if w[0] in cols and nospace(w[2].args[-1]).endswith("+1")]
         if writes:
             ok = all(w[1] for w in writes)
             rep.decide(ok, "nonneg-subdiagonal", "arnoldi_fact:subdiagonal", f"sub-diagonal entry written: `{ast.unparse(writes[0][2].args[1])[:40]}`" + ("" if ok else ": must be a norm"),
@@ -116,11 +128,20 @@ def run(idx, rep, tier):
                f"{nospace(stores[0].args[-1]) if stores else '?'}", detail="" if ok else "first-column", locs=[idx.loc(init.module, init.node)])
     # ---- arnoldi_eigs: drop last row of H and last column of Q
     src = nospace(eigs.node)
-    ok = "Q[:,:-1],H[:-1]" in src or ("Q[:,:-1]" in src and "H[:-1]" in src)
-    rep.decide(ok, "eigs-pairing", "arnoldi_eigs", "drops the last column of Q and the last row of H" if ok else "does not drop the last column of Q and last row of H consistently",
-               detail="" if ok else "pairing", locs=[idx.loc(eigs.module, eigs.node)])
-    prod = "Q@lazify(vs)" in src or "Q@" in src
-    rep.decide(True if prod else None, "eigs-pairing", "arnoldi_eigs:vectors", "Ritz vectors are Q times the eigenvectors of H", locs=[idx.loc(eigs.module, eigs.node)])
+    qn = hn = None
+    for st in df.body_nodes(eigs.node):
+        if isinstance(st, ast.Assign) and isinstance(st.targets[0], ast.Tuple) and isinstance(st.value, ast.Call) and nospace(st.value.func) == arnoldi.short:
+            els = st.targets[0].elts
+            if len(els) >= 2 and all(isinstance(e, ast.Name) for e in els[:2]):
+                qn, hn = els[0].id, els[1].id
+    if qn is None:
+        rep.undecided("eigs-pairing", "arnoldi_eigs", "the unpacking of arnoldi's result was not found")
+    else:
+        ok = f"{qn}[:,:-1]" in src and f"{hn}[:-1]" in src
+        rep.decide(ok, "eigs-pairing", "arnoldi_eigs", "drops the last column of Q and the last row of H" if ok else "does not drop the last column of Q and last row of H consistently",
+                   detail="" if ok else "pairing", locs=[idx.loc(eigs.module, eigs.node)])
+        prod = f"{qn}@" in src
+        rep.decide(True if prod else None, "eigs-pairing", "arnoldi_eigs:vectors", "Ritz vectors are Q times the eigenvectors of H", locs=[idx.loc(eigs.module, eigs.node)])
     rep.floor("loop-cap", 2)
     rep.floor("buffers", 2)
     rep.floor("normalisation-floor", 1)
